@@ -480,6 +480,12 @@ class RecordingEvents:
     async def _cb(self, name, ctx, node_id=None, **data):
         s = S
         run = ctx.pipeline_id
+        # per-run state kept on the manager object: legitimate, the engine creates the managers of a run from the classes
+        mine = getattr(self, '_rv_run', None)
+        if mine is None:
+            self._rv_run = run
+        elif mine != run:
+            s.ev('manager_shared', run, None, other=mine, cb=name)
         n = s.collab_calls.get((run, name), 0)
         s.collab_calls[(run, name)] = n + 1
         s.ev('cb_' + name, run, _nid(node_id) if node_id is not None else None,
